@@ -155,7 +155,7 @@ fn check_roundtrip(r: usize, n: usize, mask: u64, acc: &mut Acc) {
 }
 
 /// Reference parse: Err(()) when the text cannot denote a matrix.
-fn ref_parse(text: &str) -> Result<(usize, usize, Ones), ()> {
+pub fn ref_parse(text: &str) -> Result<(usize, usize, Ones), ()> {
     let mut lines = text.split('\n');
     let header = lines.next().ok_or(())?;
     let mut t = header.split_whitespace();
